@@ -27,7 +27,7 @@ type c06 struct{}
 func (c06) ID() string    { return "C06" }
 func (c06) Level() string { return "exploration" }
 func (c06) Rule() string {
-	return "case = history of 2-6 operations over shared caches: build(config) with config drawn from a pool {default, -tiny, -literals, -seed=A, -seed=B, GOGARBLE subset, controlflow, -tags t, -ldflags=-X main.version=v1|v2} and edit(package, kind in {body, comment, blank, exported, newfile}) / revert. Fixed part: every ordered pair of configurations that differ in exactly one input, and the edit shapes that change a package's plain build but not its garbled output or vice versa; seeded part: random histories. Oracle per build: sha256 = isolated reference of (config, source); stdout = plain build; repeated build runs 0 compile/asm children. Non-trivial = the history has at least two builds whose (config, source) differ; distinct = distinct operation sequences."
+	return "case = history of 2-6 operations over shared caches: build(config) with config drawn from a pool {default, -tiny, -literals, -seed=A, -seed=B, GOGARBLE subset, controlflow, -tags t, -ldflags=-X main.version=v1|v2} and edit(package, kind in {body, comment, blank, exported, newfile}) / revert. Fixed part: every ordered pair of configurations that differ in exactly one input, and the edit shapes that change a package's plain build but not its garbled output or vice versa; seeded part: random histories. Oracle per build: exit status and sha256 = isolated reference of (config, source) (a cold build that fails must fail warm too); an immediately repeated build of the same config and source runs 0 compile/asm children. Non-trivial = the history has at least two builds whose (config, source) differ; distinct = distinct operation sequences."
 }
 func (c06) Assumptions() []string {
 	return []string{
@@ -196,13 +196,81 @@ func (c c06) Generate(e *Env) ([]*Case, error) {
 		}
 		add(ops...)
 	}
+	if thorough {
+		// From empty caches (three fully cold-ish builds, outside the gate).
+		cases = append(cases, &Case{Property: "C06", Kind: "coldhistory", Seed: e.Seed, Params: mustJSON(c06Params{Prog: "p4", Tier: e.Tier, P: 16,
+			Ops: []c06Op{{Build: "ctrlflow"}, {Edit: &Edit{Pkg: "work", Kind: "comment", N: 1}}, {Build: "ctrlflow"}}})})
+		cases = append(cases, &Case{Property: "C06", Kind: "coldhistory", Seed: e.Seed, Params: mustJSON(c06Params{Prog: "p1", Tier: e.Tier, P: 16,
+			Ops: []c06Op{{Build: "literals"}, {Edit: &Edit{Pkg: "leaf", Kind: "comment", N: 1}}, {Build: "literals"}}})})
+	}
 	return cases, nil
+}
+
+// runColdHistory: from EMPTY caches, build, edit, build — compared with a fully
+// cold build of the edited source. Used for configurations whose builds only
+// succeed when std is compiled in the same go invocation (trash blocks), where
+// the template-based reference fails as well and would hide the difference.
+func (c c06) runColdHistory(e *Env, cs *Case, p c06Params) (*Outcome, error) {
+	o := &Outcome{Faults: map[string]int{}, Probes: map[string]int{}, Traces: map[string][]engine.Step{}}
+	o.NonTrivial = true
+	o.Fingerprint = string(cs.Params)
+	cfg, _ := c06Config(p.Ops[0].Build)
+	ed := *p.Ops[1].Edit
+	build := func(w *world.World, src string) (string, string, int) {
+		out := filepath.Join(w.Out, "bin")
+		_, se, code := w.RunPlain(src, cfg, "build", "-o", out, ".")
+		o.SimRuns++
+		return world.HashFile(out), se, code
+	}
+	w, err := world.New(e.Bin, "c06cold")
+	if err != nil {
+		return nil, err
+	}
+	defer w.Close()
+	src, err := PrepareSource(w, p.Prog, p.Prog, nil)
+	if err != nil {
+		return nil, err
+	}
+	if _, se, code := build(w, src); code != 0 {
+		return nil, fmt.Errorf("c06: fully cold build of %s under %s failed: %s", p.Prog, cfg.Name, shortErr(se))
+	}
+	if err := ApplyEdit(src, ed); err != nil {
+		return nil, err
+	}
+	sha2, se2, code2 := build(w, src)
+	w2, err := world.New(e.Bin, "c06cold")
+	if err != nil {
+		return nil, err
+	}
+	defer w2.Close()
+	src2, err := PrepareSource(w2, p.Prog, p.Prog, []Edit{ed})
+	if err != nil {
+		return nil, err
+	}
+	shaRef, seRef, codeRef := build(w2, src2)
+	o.Sample = map[string]any{"ops": p.Ops, "prog": p.Prog, "warm_exit": code2, "cold_exit": codeRef}
+	key := p.Prog + "/" + cfg.Name + "-after-cold-" + cfg.Name + "+edit:" + ed.Pkg + ":" + ed.Kind
+	switch {
+	case codeRef != 0 && code2 != 0:
+		o.Probes["config-does-not-build-cold:"+cfg.Name]++
+	case codeRef != 0:
+		o.Violation = &Violation{Class: "built-although-cold-build-fails", Key: "built-although-cold-build-fails/" + key, Detail: shortErr(seRef)}
+	case code2 != 0:
+		o.Violation = &Violation{Class: "build-failed", Key: "build-failed/" + key,
+			Detail: fmt.Sprintf("history from empty caches: build(%s); edit(%s,%s); build(%s): the second build exits %d although a fully cold build of the same source succeeds:\n%s", cfg.Name, ed.Pkg, ed.Kind, cfg.Name, code2, shortErr(se2))}
+	case sha2 != shaRef:
+		o.Violation = &Violation{Class: "stale-binary", Key: "stale-binary/" + key, Detail: fmt.Sprintf("second build %.16s, fully cold build of the same source %.16s", sha2, shaRef)}
+	}
+	return o, nil
 }
 
 func (c c06) Run(e *Env, cs *Case) (*Outcome, error) {
 	var p c06Params
 	if err := json.Unmarshal(cs.Params, &p); err != nil {
 		return nil, err
+	}
+	if cs.Kind == "coldhistory" {
+		return c.runColdHistory(e, cs, p)
 	}
 	tcfgs := c06TmplCfgs(p.Tier)
 	tmpl, err := e.Template(tcfgs...)
@@ -325,8 +393,12 @@ func (c c06) Run(e *Env, cs *Case) (*Outcome, error) {
 		if err != nil {
 			return nil, err
 		}
-		if so, rc := RunBinary(out); so != plain.Stdout || rc != plain.RunExit {
-			return viol("behaviour-differs", key, fmt.Sprintf("program prints:\n%s\nplain build prints:\n%s", firstLines(so, 10), firstLines(plain.Stdout, 10)))
+		if ref.Stdout != plain.Stdout || ref.RunExit != plain.RunExit {
+			// The cold build of this configuration itself behaves differently from
+			// the regular build (met with GOGARBLE subsets: a package left
+			// unobfuscated reflects on types of an obfuscated one). That is C01/C14
+			// matter, not staleness; C06 compares with the cold build only.
+			o.Probes["cold-build-differs-from-plain:"+cfgName]++
 		}
 		unchanged := op.Again && lastState == cfgName+"|"+editsKey(edits)
 		lastState = cfgName + "|" + editsKey(edits)
